@@ -20,3 +20,14 @@ func verifPoint(point string, arg any) {
 func VerifProcessSegments(in io.Reader, out *io.PipeWriter, fn func(out io.Writer, data []byte, num uint32, last bool) error, segmentSize int) {
 	processSegments(in, out, fn, segmentSize)
 }
+
+// VerifSegmentFns returns the segment encryption and decryption functions that
+// Encrypt and Decrypt use for the given file key, nonce prefix and cipher, so
+// that a harness can exercise them with arbitrary segment numbers.
+func VerifSegmentFns(fileKey, noncePrefix []byte, cipher Cipher) (enc, dec func(out io.Writer, data []byte, num uint32, last bool) error, err error) {
+	fk, err := importFileKey(fileKey, noncePrefix, cipher)
+	if err != nil {
+		return nil, nil, err
+	}
+	return fk.EncryptSegment, fk.DecryptSegment, nil
+}
